@@ -428,7 +428,9 @@ class Inspector:
         self.extensions.call("on_function_node", node=node, agent=self)
 
         try:
-            signature = getsignature(node.obj)
+            # Class methods are picked up bound to their class: use the underlying function
+            # to keep the `cls` parameter, as for regular methods (`self`) and as the static agent does.
+            signature = getsignature(getattr(node.obj, "__func__", node.obj) if "classmethod" in (labels or ()) else node.obj)
         except Exception:  # noqa: BLE001
             # So many exceptions can be raised here:
             # AttributeError, NameError, RuntimeError, ValueError, TokenError, TypeError...
